@@ -46,6 +46,30 @@ Theorem C01_traversal_bst :
   exists t, build cmp BST h = Ok t /\ Permutation (trav_list o t) (s_build cmp h).
 Proof. intros K V cmp TO h o. exact (bst_traversal cmp TO h o). Qed.
 
+(** AVL: the same statements at full strength (rotations included; no panic). *)
+Theorem C01_refines_avl :
+  forall (K V : Type) (cmp : K -> K -> Z) (eqv : V -> V -> bool), TotalOrder cmp ->
+  forall ops : list (op K V),
+    forallb abstract_op ops = true ->
+    run cmp eqv AVL ops = map Ok (spec_run cmp eqv ops).
+Proof. intros K V cmp eqv TO ops. exact (avl_run_ok cmp eqv TO ops). Qed.
+
+Theorem C01_firstmatch_avl :
+  forall (K V : Type) (cmp : K -> K -> Z), TotalOrder cmp ->
+  forall (h : list (mut K V)) (p : K -> V -> bool),
+  exists t, build cmp AVL h = Ok t /\
+    match first_match p t with
+    | Some e => In e (s_build cmp h) /\ holds p e = true
+    | None => forall e, In e (s_build cmp h) -> holds p e = false
+    end.
+Proof. intros K V cmp TO h p. exact (avl_firstmatch cmp TO h p). Qed.
+
+Theorem C01_traversal_avl :
+  forall (K V : Type) (cmp : K -> K -> Z), TotalOrder cmp ->
+  forall (h : list (mut K V)) (o : order), o <> OtherOrder ->
+  exists t, build cmp AVL h = Ok t /\ Permutation (trav_list o t) (s_build cmp h).
+Proof. intros K V cmp TO h o. exact (avl_traversal cmp TO h o). Qed.
+
 (** Non-vacuity: a 7-key history with a double rotation (AVL), colour flips (red-black), a
     successor-replacing delete, absent keys, on the three implementations and two comparators. *)
 Example C01_example :
@@ -66,3 +90,6 @@ Qed.
 Print Assumptions C01_refines_bst.
 Print Assumptions C01_firstmatch_bst.
 Print Assumptions C01_traversal_bst.
+Print Assumptions C01_refines_avl.
+Print Assumptions C01_firstmatch_avl.
+Print Assumptions C01_traversal_avl.
